@@ -149,7 +149,16 @@ def run(R):
             return True
         starts_ = [e.dst for x, lab in bt for e in dcfg.out_edges(x.id, N) if e.label == lab]
         ps = dcfg.find_path(starts_, loops_ + [dcfg.exit], N, cut_nodes=scheds, keep_edge=has_items_edge)
-        pp = dcfg.find_path(starts_, loops_, N, cut_nodes=pops, keep_edge=has_items_edge)
+        def still_on_top(e, recv=recv):
+            # (the pop may be skipped only when the entry is not the top of the stack any more: a hook reset the stack)
+            nd = dcfg.nodes[e.src]
+            if nd.kind == "test":
+                k, s_, pos = q.atom_test(nd.ast)
+                gone = (k == "truth" and s_ == sfq) or (k == "is" and isinstance(s_, tuple) and set(s_) == {"%s[-1]" % sfq, recv})
+                if gone:
+                    return e.label == ("T" if pos else "F")
+            return has_items_edge(e)
+        pp = dcfg.find_path(starts_, loops_, N, cut_nodes=pops, keep_edge=still_on_top)
         R.check(ps is None and scheds, "C04.WHO-FLUSH", "%s:batch-arm:schedules" % drain.qualname, R.site(drain, c),
                 "a yielded batch that holds requests is handed to _schedule_batch()", "a yielded batch that holds requests can leave its arm without being scheduled: "
                 "nobody flushes it and the task waiting for it never continues", dcfg.fmt_path(ps) if ps else None)
@@ -326,7 +335,15 @@ def revisit_rules(R, ro, rule):
                 "a task left blocked gets its dependencies-scheduled flag cleared, so its subtree is revisited after the next flush",
                 "a task can be left blocked with the flag still set: after a flush its unblocked dependencies are never revisited",
                 hcfg.fmt_path(p) if p else None)
-        p = hcfg.find_path(starts, [hcfg.exit], N, cut_nodes=pops)
+        def on_top(e):
+            # the pop may be skipped only when the task is not the top entry any more (a hook reset the stack)
+            nd = hcfg.nodes[e.src]
+            if nd.kind != "test":
+                return True
+            k_, s_, pos_ = q.atom_test(nd.ast)
+            gone = (k_ == "truth" and s_ == "self." + sf) or (k_ == "is" and isinstance(s_, tuple) and set(s_) == {"self.%s[-1]" % sf, hp})
+            return not (gone and e.label == ("F" if pos_ else "T"))
+        p = hcfg.find_path(starts, [hcfg.exit], N, cut_nodes=pops, keep_edge=on_top)
         R.check(p is None, rule, hm.qualname + ":second-visit-pop", R.site(hm, t.ast),
                 "a task left blocked is popped from the stack", "a task left blocked can stay on top of the stack (the drain would spin)",
                 hcfg.fmt_path(p) if p else None)
